@@ -96,6 +96,8 @@ def g_xop(a):
         return "(XRemove %s)" % g_bytes(a[1])
     if k == "chmod":
         return "(XChmod %s %s)" % (g_bytes(a[1]), g_bool(a[2]))
+    if k == "mv":
+        return "(XMove %s %s)" % (g_bytes(a[1]), g_bytes(a[2]))
     if k == "rmcache":
         return "(XRmCache %s)" % g_bytes(a[1])
     if k == "rmruler":
